@@ -481,12 +481,34 @@ SEQ_FIRST = [
     ("get [send fails]", lambda o: o.get("k"), "send"),
     ("set [reply lost]", lambda o: o.set("k", b"v", noreply=False), "recv"),
     ("get_many [reply lost]", lambda o: o.get_many(["a", "b"]), "recv"),
+    # calls that succeed: nothing they learned about a key or an argument may leak into the next call
+    ("stats('m') ok", lambda o: o.stats("m"), None),
+    ("stats(b'm') ok", lambda o: o.stats(b"m"), None),
+    ("get('m') ok", lambda o: o.get("m"), None),
+    ("get(b'm') ok", lambda o: o.get(b"m"), None),
+    ("set_many({m,n}) ok", lambda o: o.set_many({"m": b"1", "n": b"2"}, noreply=True), None),
+    ("delete('m') ok", lambda o: o.delete("m", noreply=True), None),
+    ("cache_memlimit(64) ok", lambda o: o.cache_memlimit(64), None),
 ]
+
+
+class FnCall:
+    """A second call given as a function (for operations the Call class does not describe)."""
+
+    def __init__(self, op, fn):
+        self.op, self.fn = op, fn
+
+    def invoke(self, obj):
+        return self.fn(obj)
+
+
 SEQ_SECOND = [Call("set", ["m"], value=b"w", noreply=False), Call("set_many", ["m", "n"], value=b"w", noreply=False),
               Call("add", ["m"], value=b"w", noreply=True), Call("cas", ["m"], value=b"w", cas=7, noreply=False),
               Call("get", ["m"]), Call("gets_many", ["m", "n"]), Call("delete", ["m"], noreply=False),
               Call("delete_many", ["m", "n"], noreply=False), Call("incr", ["m"], noreply=False),
-              Call("touch", ["m"], expire=5, noreply=False), Call("gat", ["m"], expire=5), Call("flush_all", [], noreply=False)]
+              Call("touch", ["m"], expire=5, noreply=False), Call("gat", ["m"], expire=5), Call("flush_all", [], noreply=False),
+              FnCall("stats", lambda o: o.stats("m")), FnCall("stats-bytes", lambda o: o.stats(b"m")),
+              Call("get", [b"m"]), Call("delete", [b"m"], noreply=False)]
 
 
 def run_sequence(stack, first, second, prefix=b""):
@@ -502,7 +524,7 @@ def run_sequence(stack, first, second, prefix=b""):
             pass
         mod.fail = None
     mark = len(mod.sent)
-    mod.reply = REPLIES.get(second.op, b"STORED\r\n")
+    mod.reply = REPLIES.get(second.op, b"END\r\n" if second.op.startswith("stats") else b"STORED\r\n")
     try:
         second.invoke(obj)
         res = "ok"
@@ -526,7 +548,7 @@ def dim_sequence(chk, tier, stack, only=None):
                 if got != alone:
                     what = "wrote" if got[0] != alone[0] else "ended"
                     chk.violation(f"sequence|{stack}.{second.op}|after={first[0]}",
-                                  f"{stack}(key_prefix={prefix!r}): after a failed {first[0]}, {second.op} {what} "
+                                  f"{stack}(key_prefix={prefix!r}): after {first[0] if first[0].endswith(' ok') else 'a failed ' + first[0]}, {second.op} {what} "
                                   f"{got[0][:120]!r} ({got[1]}); on a fresh object it writes {alone[0][:120]!r} ({alone[1]})",
                                   {"dim": "sequence", "stack": stack, "first": first[0], "second": second.op})
 
